@@ -520,7 +520,9 @@ def _def_loops(ctx, rel, prefix_re, seq, suffix_of, what, expected):
         if not (it[2] == seq and it[7] is None):
             (wrong if J.unfilter(it[2])[0] == seq else unknown).append(f"iterates {J.show(it[2])}")
         if not (outs and outs[0][1] == suffix_of(it[1])):
-            (wrong if outs and J.names_of(outs[0][1]) <= set(_target_names(it[1])) else unknown).append("suffix " + (J.show(outs[0][1]) if outs else "missing"))
+            # another attribute of the loop variable, or an item picked by position out of the right sequence filtered / re-ordered
+            resorted = bool(outs) and any(isinstance(x, tuple) and len(x) == 3 and x[0] == "item" and x[1] != seq and J.unfilter(x[1])[0] == seq for x in _walk(outs[0][1]))
+            (wrong if outs and (resorted or J.names_of(outs[0][1]) <= set(_target_names(it[1]))) else unknown).append("suffix " + (J.show(outs[0][1]) if outs else "missing"))
         if not (len(outs) == 2 and outs[1][1] == IDX0):
             (wrong if len(outs) == 2 and J.names_of(outs[1][1]) <= {"loop"} else unknown).append("position " + " ".join(J.show(o[1]) for o in outs[1:]))
         if unknown and not wrong:
